@@ -336,11 +336,20 @@ func checkC03(x *Exec, c *Case) ([]Violation, bool) {
 	// reference run: as generated, but without empty reads (a replayed case may
 	// carry the empty read that made a difference; it is then run as a variant)
 	given := c
-	if hasEmptyRead(c) {
+	givenTimeout, givenEOFData := false, false
+	for _, f := range c.Conns[0].Faults {
+		if f.Kind == "read-timeout" {
+			givenTimeout = true
+		}
+		if f.Kind == "eof-with-data" {
+			givenEOFData = true
+		}
+	}
+	if hasEmptyRead(c) || givenTimeout || givenEOFData {
 		c = c.Clone()
 		var keep []Fault
 		for _, f := range c.Conns[0].Faults {
-			if f.Kind != "empty-read" {
+			if f.Kind != "empty-read" && f.Kind != "read-timeout" && f.Kind != "eof-with-data" {
 				keep = append(keep, f)
 			}
 		}
@@ -414,6 +423,85 @@ func checkC03(x *Exec, c *Case) ([]Violation, bool) {
 			}
 		}
 	}
+	// one read that reports a transient timeout (nothing is lost, the next read
+	// succeeds): the bytes are the same, so a server that carries on answers the
+	// same; it may also give the connection up. Not judged when a handler reads
+	// the stream itself (COPY): what a handler does with a failed read is its own.
+	if len(viol) == 0 && ref.reads > 0 && !strings.Contains(refEv, "copy") {
+		for k := 0; k < 3; k++ {
+			v := c.Clone()
+			if k == 1 {
+				v.Conns[0].Cuts = []int{r.PickInt(1, 7, 100)}
+			}
+			at := r.Intn(ref.reads + 1)
+			if k == 2 {
+				if !givenTimeout {
+					break
+				}
+				v = given.Clone() // the replayed variant itself
+				for _, f := range v.Conns[0].Faults {
+					if f.Kind == "read-timeout" {
+						at = f.At
+					}
+				}
+			} else {
+				v.Conns[0].Faults = append(v.Conns[0].Faults, Fault{Kind: "read-timeout", At: at, Timeout: true})
+			}
+			rv := x.Run(v)
+			cs := rv.Conns[0]
+			if cs.FaultFired["read-timeout"] == 0 {
+				continue
+			}
+			refRun := ref
+			if k >= 1 {
+				// (the undisturbed run under the same cuts)
+				u := c.Clone()
+				u.Conns[0].Cuts = v.Conns[0].Cuts
+				refRun = x.Run(u).Conns[0]
+			}
+			x.Probe("transient_read_timeout_delivered")
+			if ok, _, detail := afterTimeoutVerdict(refRun, cs); !ok {
+				*given = *v
+				viol = append(viol, Violation{Prop: "C03", Rule: "diverges-after-read-timeout", Sig: "diverges-after-read-timeout",
+					Detail: fmt.Sprintf("read #%d reported a timeout (no byte lost, later reads succeed): %s", at, detail)})
+				return viol, true
+			}
+		}
+	}
+	// the peer's last bytes arrive together with its end of stream (one Read
+	// returns n > 0 and io.EOF): the same bytes, the same outcome
+	if len(viol) == 0 && !c.Conns[0].NoEOF {
+		for k := 0; k < 3; k++ {
+			v := c.Clone()
+			switch k {
+			case 1:
+				v.Conns[0].Cuts = []int{1}
+			case 2:
+				if !givenEOFData {
+					continue
+				}
+				v = given.Clone() // the replayed variant itself
+			}
+			if k < 2 {
+				v.Conns[0].Faults = append(v.Conns[0].Faults, Fault{Kind: "eof-with-data", At: -1})
+			}
+			rv := x.Run(v)
+			cs := rv.Conns[0]
+			if cs.FaultFired["eof-with-data"] == 0 {
+				continue
+			}
+			x.Probe("eof_delivered_with_data")
+			t := Canonical(ParseOut(cs).Msgs)
+			ev := CallbackTrace(cs)
+			if t != refT || ev != refEv || cs.Closed == 0 {
+				*given = *v
+				viol = append(viol, Violation{Prop: "C03", Rule: "eof-with-data-dependence", Sig: "eof-with-data-dependence",
+					Detail: fmt.Sprintf("the client's last bytes and its end of stream arrive in one read (cuts %v): the outcome changes:\n  reference: %s | %s\n  with it:   %s | %s", v.Conns[0].Cuts,
+						trunc(pgwire.Kinds(ParseOut(ref).Msgs), 80), trunc(strings.ReplaceAll(refEv, "\n", "; "), 120), trunc(pgwire.Kinds(ParseOut(cs).Msgs), 80), trunc(strings.ReplaceAll(ev, "\n", "; "), 120))})
+				return viol, true
+			}
+		}
+	}
 	// exact consumption: the same session without the grammar-external surplus
 	// bytes inside messages must give the same transcript and callback trace
 	hasTail, oversized := false, false
@@ -445,7 +533,7 @@ func checkC03(x *Exec, c *Case) ([]Violation, bool) {
 func init() {
 	register(&Prop{
 		ID: "C03", Level: "exploration", QuickS: 25, ThoroughS: 420,
-		Rule:        "seeded client byte streams (valid sessions of every phase incl. SSLRequest->N, COPY, oversized messages; messages carrying grammar-external surplus bytes: Parse with parameter OIDs, Execute/Sync/Flush/Query/Describe/Close/Bind with trailing junk, SSLRequests carrying bytes inside their declared length, Describe/Close with undefined kind bytes; a truncated or mis-sized final message) each run under its generated segmentation and then under: all at once, one byte per read, cuts inside every 5-byte header ({2,3},{4,1},{5},{6,1,1}), a cut at every message boundary and 3 seeded cut lists, plus four runs with one legal empty read (0 bytes, no error) at a seeded read index; canonical transcript, output length and callback trace must be identical across all of them, and equal to the run with the surplus bytes removed; accessor clause: buffer.Reader driven directly over the segmenting reader with a generated message body followed by a canary message, a random sequence of GetString/GetBytes(n>=0)/GetUint16/GetUint32/GetPrepareType compared call by call with an independent cursor (no panic, errors exactly on short/unterminated data, canary message intact afterwards); every case counts as non-trivial (each is a differential over >= 9 segmentations); distinct = distinct case content hashes",
+		Rule:        "seeded client byte streams (valid sessions of every phase incl. SSLRequest->N, COPY, oversized messages; messages carrying grammar-external surplus bytes: Parse with parameter OIDs, Execute/Sync/Flush/Query/Describe/Close/Bind with trailing junk, SSLRequests carrying bytes inside their declared length, Describe/Close with undefined kind bytes; a truncated or mis-sized final message) each run under its generated segmentation and then under: all at once, one byte per read, cuts inside every 5-byte header ({2,3},{4,1},{5},{6,1,1}), a cut at every message boundary and 3 seeded cut lists, plus four runs with one legal empty read (0 bytes, no error) at a seeded read index; canonical transcript, output length and callback trace must be identical across all of them, and equal to the run with the surplus bytes removed; accessor clause: buffer.Reader driven directly over the segmenting reader with a generated message body followed by a canary message, a random sequence of GetString/GetBytes(n>=0)/GetUint16/GetUint32/GetPrepareType compared call by call with an independent cursor (no panic, errors exactly on short/unterminated data, canary message intact afterwards); every case counts as two more differential runs: one read reports a transient timeout (no byte lost; identical if the server carries on, a prefix if it gives up; not when a handler reads the stream itself), the client's last bytes arrive together with io.EOF; non-trivial (each is a differential over >= 9 segmentations); distinct = distinct case content hashes",
 		Components:  append(append([]string{}, e1Components...), "accessor clause: real pkg/buffer.Reader over a stub segmenting io.Reader (input generation riding on the simulated transport)"),
 		Assumptions: commonAssumptions,
 		Gen: func(r *Rand, tier string) *Case {
